@@ -1085,6 +1085,8 @@ class Engine:
         if kind == "field":
             return self.read_field(base, attr)
         if kind == "external":
+            if attr in getattr(r[1], "data", ()):
+                return self.read_field(base, attr)
             return BoundMethod(base, attr)
         if kind == "ext":
             return r[1](base)
@@ -1119,6 +1121,8 @@ class Engine:
                     return self.read_field(base, attr)
             return self.eval(r[2], Frame({}, module=r[1].module, cls=r[1]))
         if r[0] == "external":
+            if attr in getattr(r[1], "data", ()):
+                return self.read_field(base, attr)
             return BoundMethod(base, attr)
         raise Unsupported("attr")
 
